@@ -196,7 +196,7 @@ func cmdCheck(args []string) int {
 		timeout = 60
 		requireAll = true
 	}
-	dischargeAll(all, filepath.Join(outDir, "smt"), timeout, requireAll, 6)
+	dischargeAll(all, filepath.Join(outDir, "smt"), timeout, requireAll, 10)
 	tSolve := time.Since(t0).Seconds()
 
 	// ---- verdicts ----
